@@ -1,5 +1,6 @@
 (* C16 -- A conditional publish lands only at the offset it expected. *)
 From LB Require Import Base.Prelude Log.Model Log.Proofs Log.Refine.
+From LB Require Repl.Acks Repl.AcksProofs Repl.AcksOcc.
 Open Scope Z_scope.
 
 (* With optimistic concurrency control a single-message batch is stored iff its expected
@@ -15,3 +16,50 @@ Theorem C16_stored_iff_expected : forall maxb l m,
      wf (append_log maxb true l [m]) /\ newest (append_log maxb true l [m]) = newest l).
 Proof. exact append_occ. Qed.
 Print Assumptions C16_stored_iff_expected.
+
+(* ---- at the partition leader and at the API (Repl.Acks: the model C04's histories are tied to; the
+   API histories of TestVerifC16Api are replayed against it) ---- *)
+Module Server.
+Import Repl.Acks Repl.AcksProofs Repl.AcksOcc.
+
+(* one message on a stream with concurrency control: with the check waived or the next offset
+   expected it is appended and nothing negative is said; otherwise the state is unchanged and the
+   publisher gets the incorrect-offset error *)
+Theorem C16_leader_stores_iff_expected : forall s m s' out, l_cc s = true -> QInv s -> store_batch s [m] = (s', out) ->
+  l_cc s' = true /\
+  (accepted s m = true -> l_log s' = l_log s ++ [m] /\ forall a, In a out -> ak_kind a = AOk) /\
+  (accepted s m = false -> s' = s /\ out = [mkAck (pm_corr m) (pm_policy m) 0 AIncorrectOffset]).
+Proof. exact store_one. Qed.
+Print Assumptions C16_leader_stores_iff_expected.
+
+(* "of any set of publishers racing with the same expected offset at most one succeeds": any number
+   of messages with one expected offset (not -1), in whatever order they reach the leader *)
+Theorem C16_racers_at_most_one : forall ms s e s' out, l_cc s = true -> QInv s -> e <> -1 ->
+  (forall m, In m ms -> pm_expected m = e) -> store_each s ms = (s', out) ->
+  (length (l_log s') <= length (l_log s) + 1)%nat.
+Proof. exact racers_at_most_one. Qed.
+Print Assumptions C16_racers_at_most_one.
+
+(* the API refuses the NONE policy on such streams, and what it lets through never has it *)
+Theorem C16_api_refuses_none : forall s ms s' out, l_cc s = true -> QInv s -> step s (LApi ms) = (s', out) ->
+  (forall m, In m ms -> pm_policy m = PNone -> In (mkAck (pm_corr m) PNone 0 ARefused) out) /\
+  exists st, l_log s' = l_log s ++ st /\ forall m, In m st -> In m ms /\ pm_policy m <> PNone.
+Proof. exact api_none_refused. Qed.
+Print Assumptions C16_api_refuses_none.
+
+(* so every publisher is served or told: each message of an API call is stored, or an answer that
+   is not a positive acknowledgement names it *)
+Theorem C16_every_publisher_served_or_told : forall s ms s' out, l_cc s = true -> QInv s -> step s (LApi ms) = (s', out) ->
+  exists st, l_log s' = l_log s ++ st /\
+  forall m, In m ms -> In m st \/ exists a, In a out /\ ak_corr a = pm_corr m /\ ak_kind a <> AOk.
+Proof. exact api_every_publisher_served_or_told. Qed.
+Print Assumptions C16_every_publisher_served_or_told.
+
+Example C16_api_history :
+  let '(s, acks) := run (init_state [0%N] 1 true)
+                        [LApi [mkMsg 1 PLeader false 0; mkMsg 2 PNone false 1; mkMsg 3 PAll false 5; mkMsg 4 PAll false (-1)];
+                         LApi [mkMsg 5 PLeader false 2; mkMsg 6 PLeader false 2; mkMsg 7 PLeader false 2]] in
+  acks = [mkAck 2 PNone 0 ARefused; mkAck 1 PLeader 0 AOk; mkAck 3 PAll 0 AIncorrectOffset; mkAck 4 PAll 1 AOk;
+          mkAck 5 PLeader 2 AOk; mkAck 6 PLeader 0 AIncorrectOffset; mkAck 7 PLeader 0 AIncorrectOffset] /\ length (l_log s) = 3%nat.
+Proof. vm_compute. split; reflexivity. Qed.
+End Server.
